@@ -84,9 +84,52 @@ package backend
 //@   ensures [reported] revision != 0 && revision == old(pending) ==> pending == 0
 //@   ensures [zero-ignored] revision == 0 ==> pending == old(pending)
 
+// ---- C03: the point read ----
+// A point read opens a descending iteration from the version key (key, R) down to, and excluding,
+// the index record (key, 0) and looks at its first record only. By the order lemmas of C10 the
+// stored keys in that interval are exactly the versions of key with revision in (0, R], newest
+// first, so "the first record" is the newest version at or below R (composed by hand, DESIGN.md).
+//@ pred first_is_version_of(key) = rec_n >= 1 && it_pos == 1 && rec_rev[0] != 0 && bytes_eq(rec_key[0][4:len(rec_key[0])-9], key)
+//@ func (*backend).getInternalVal(ctx, key, revision) (val, modRevision, err)
+//@   props C03
+//@   requires wf_backend(b)
+//@   modifies inferred:(*backend).getInternalVal
+//@   ensures [asks-for-the-versions-of-this-key-at-or-below-R-newest-first] err == nil || it_pos == 1 ==> is_enc(it_lo, key, ite(revision == 0, MaxUint64, revision)) && is_enc(it_hi, key, uint64(0))
+//@   ensures [found-is-the-first-record] err == nil ==> first_is_version_of(key) && val == rec_val[0] && modRevision == rec_rev[0] && !is_nil(val)
+//@   ensures [a-present-version-is-found] first_is_version_of(key) ==> err == nil
+//@   ensures [nothing-else-is-returned] err != nil ==> is_nil(val) && modRevision == 0
+
 //@ func (*backend).get(ctx, key, revision) (val, modRevision, err)
-//@   assumed
+//@   props C03
+//@   requires wf_backend(b)
+//@   modifies inferred:(*backend).get
 //@   ensures [not-found-is-error] is_nil(val) && err == nil ==> false
+//@   ensures [asks-for-the-versions-of-this-key-at-or-below-R-newest-first] err == nil || it_pos == 1 ==> is_enc(it_lo, key, ite(revision == 0, MaxUint64, revision)) && is_enc(it_hi, key, uint64(0))
+//@   ensures [a-live-version-is-returned-as-stored] first_is_version_of(key) && !bytes_eq(rec_val[0], tombStoneBytes) ==> err == nil && val == rec_val[0] && modRevision == rec_rev[0]
+//@   ensures [a-deletion-reads-as-absent] first_is_version_of(key) && bytes_eq(rec_val[0], tombStoneBytes) ==> err == storage.ErrKeyNotFound && is_nil(val) && modRevision == rec_rev[0]
+//@   ensures [nothing-else-is-returned] err == nil ==> first_is_version_of(key) && val == rec_val[0] && modRevision == rec_rev[0]
+
+//@ func (*backend).Get(ctx, r) (resp, err)
+//@   props C03 C02
+//@   requires wf_backend(b) && r != nil
+//@   modifies inferred:(*backend).Get
+//@   ensures [a-live-version-is-returned-as-stored] first_is_version_of(r.Key) && !bytes_eq(rec_val[0], tombStoneBytes) ==> err == nil && resp != nil && resp.Kv != nil && resp.Kv.Key == r.Key && resp.Kv.Value == rec_val[0] && resp.Kv.Revision == rec_rev[0]
+//@   ensures [a-deletion-reads-as-absent] first_is_version_of(r.Key) && bytes_eq(rec_val[0], tombStoneBytes) ==> err == nil && resp != nil && resp.Kv == nil
+//@   ensures [nothing-else-is-returned] err == nil && resp.Kv != nil ==> first_is_version_of(r.Key) && resp.Kv.Value == rec_val[0] && resp.Kv.Revision == rec_rev[0]
+//@   ensures [header-not-below-the-data] err == nil ==> resp != nil && resp.Header != nil && (resp.Kv != nil ==> resp.Header.Revision >= resp.Kv.Revision)
+
+// ---- C03: the limited list, end to end ----
+//@ func (*backend).List(ctx, r) (resp, err)
+//@   props C03
+//@   requires wf_backend(b) && b.scanner != nil && r != nil && !batch_open
+//@   requires [limit-fits] r.Limit < 0x1000000000000
+//@   modifies inferred:(*backend).List ghost.bw_n ghost.bw_kind ghost.bw_key ghost.bw_val ghost.bw_old ghost.bw_ttl ghost.commits ghost.last_batch ghost.last_err ghost.batch_open ghost.floor ghost.floor_set
+//@   let R = ite(r.Revision == 0, resp.Header.Revision, r.Revision)
+//@   ensures [invalid-ranges-are-refused] len(r.End) == 0 || bytes_cmp(r.Key, r.End) >= 0 ==> err != nil
+//@   ensures [header] err == nil ==> resp != nil && resp.Header != nil
+//@   ensures [the-interval-asked-for] err == nil && r.Limit > 0 ==> is_enc(it_lo, r.Key, uint64(0)) && is_enc(it_hi, r.End, uint64(0))
+//@   ensures [more-exactly-when-the-limit-cut-the-result] err == nil && r.Limit > 0 ==> resp.More == (cnt(rec_n) > r.Limit) && len(resp.Kvs) == ite(cnt(rec_n) > r.Limit, r.Limit, cnt(rec_n))
+//@   ensures [limited-list-is-a-prefix-of-the-snapshot] err == nil && r.Limit > 0 ==> forall(i, 0 <= i && i < rec_n && emitted_at(i, R) && 0 <= cnt(i) && cnt(i) < len(resp.Kvs), resp.Kvs[cnt(i)] != nil && same_slice(resp.Kvs[cnt(i)].Key, uk_of(i)) && resp.Kvs[cnt(i)].Value == rec_val[i] && resp.Kvs[cnt(i)].Revision == rec_rev[i])
 
 //@ func (*backend).create(ctx, key, value) (revision, err)
 //@   props C04 C17 C09
